@@ -91,19 +91,23 @@ def check_limits(op, prev, nxt, side):
             bad.append(("limit-torrent", "%s torrent %d: op %s raised unchoked to %d above max_slots %d" % (side, t, k, len(b["u"]), b["max"])))
     # (2) no op raises a per-group count above max(max_unchoked, forced in that group); a group move
     #     carries the moved entry's connections with it (the code defers to the next balancing)
+    # Slots forced by min_slots are exempt per torrent: what counts against a maximum is
+    #   ex(T) = sum_t max(0, |unchoked_t| - forced_t).  An op is at fault if it raises a count and ex ends
+    #   above both the maximum and its previous value (a maximum that was lowered, or a group that was
+    #   moved, is only enforced at the next balance/tick; min_slots fills are never at fault).
+    def ex(h, ts):
+        return sum(max(0, len(h["T"][t]["u"]) - forced(h["T"][t])) for t in ts if 0 <= t < len(h["T"]))
     if k != "SG":
         for g, (a, b) in enumerate(zip(prev["Q"], nxt["Q"])):
-            f = sum(forced(nxt["T"][t]) for t in b["ents"])
-            if b["cu"] > a["cu"] and b["max"] != UNL and b["cu"] > max(b["max"], f):
+            if b["cu"] > a["cu"] and b["max"] != UNL and ex(nxt, b["ents"]) > max(b["max"], ex(prev, a["ents"])):
                 bad.append(("limit-queue", "%s queue %d: op %s raised unchoked to %d above max_unchoked %d" % (side, g, k, b["cu"], b["max"])))
-    # (3) global maximum. The connections beyond those forced by min_slots, summed per group,
-    #     number at most the maximum:  sum_g max(0, unchoked_g - forced_g) <= max.
-    #     (The direct CY op takes its quota as an argument; the global maximum enters through the
-    #     quota ResourceManager::balance_unchoked computes, i.e. through TK.)
+    # (3) global maximum (the direct CY op takes its quota as an argument; the global maximum enters through
+    #     the quota ResourceManager::balance_unchoked computes, i.e. through TK, checked in the sum form below)
     fq = [sum(forced(nxt["T"][t]) for t in q["ents"]) for q in nxt["Q"]]
     excess = sum(max(0, q["cu"] - f) for q, f in zip(nxt["Q"], fq))
     any_forced = any(f > 0 for f in fq)
-    if nxt["max"] != 0 and k != "CY" and k != "TK" and nxt["cur"] > prev["cur"] and excess > nxt["max"]:
+    allt = range(len(nxt["T"]))
+    if nxt["max"] != 0 and k != "CY" and k != "TK" and nxt["cur"] > prev["cur"] and ex(nxt, allt) > max(nxt["max"], ex(prev, range(len(prev["T"])))):
         if side == "download" and k in ("Q", "R"):
             # exactly the known finding: choke_group::m_down_queue is built with flag_unchoke_all_new, so
             # set_queued / set_not_snubbed do not consult retrieve_download_can_unchoke before the next tick
@@ -212,6 +216,7 @@ def run(rep, tier, seed, replay):
     impl = ltv.build_harness("c11", ["c11.cc"])
     if replay:
         cases = [json.load(open(replay))["case"]]
+        cases = [c for c in cases if not c.startswith("WIRE ")]
         stats = {"replay": 1}
     else:
         cases, stats = G.gen(seed, tier)
@@ -246,6 +251,27 @@ def run(rep, tier, seed, replay):
                     continue
                 seen.add(kl)
                 rep.violation(text, case=case, model=m[-1500:], impl=o[-1500:], theorem="property oracle C11", klass=kl)
+    # ---- the wire clause, session level: real client + scripted wire peers; the extracted acceptor
+    #      wire_accept (proved complete for the m_send_choked model, ProofsWire.v) runs on the trace
+    wire_n = wire_steps = 0
+    if not replay or json.load(open(replay)).get("case", "").startswith("WIRE "):
+        if replay:
+            wcases = [json.load(open(replay))["case"][5:]]
+        else:
+            wcases = G.gen_wire(seed, tier)
+        impl_s = ltv.build_harness("c11s", ["c11s.cc", "common/session.cc"], libs=["-lcrypto"])
+        wo = ltv.run_sharded(impl_s, wcases, shards=4)
+        wlines = ["W %s %s" % (c.split(";")[0].strip(), o) for c, o in zip(wcases, wo)]
+        acc = ltv.run_sharded(model, wlines)
+        for c, o, a in zip(wcases, wo, acc):
+            wire_n += 1
+            wire_steps += o.count(" ") + 1
+            if o.startswith("ERR") or o.startswith("CRASH") or o == "BADCASE":
+                rep.violation("wire clause: the session harness raised: " + o[:200], case="WIRE " + c, impl=o[:1500],
+                              theorem="wire_matches_record (session trace)", klass="wire-crash")
+            elif a != "ACCEPT":
+                rep.violation("wire clause: at quiescence the last CHOKE/UNCHOKE a peer received differs from the client's record m_up_choke (%s)" % a,
+                              case="WIRE " + c, model=a, impl=o[:1500], theorem="wire_matches_record / wire_accept (session trace)", klass="wire-mismatch")
     if not coq["ok"]:
         rep.violation("C11 proof obligations no longer check (%d/%d): %s %s" % (
             coq["discharged"], coq["obligations"], "; ".join(coq["lint"] + coq["bad_axioms"]), coq["log"][-1500:]),
@@ -253,7 +279,7 @@ def run(rep, tier, seed, replay):
     rep.cov.update(evaluations=len(cases), op_steps=nops, distinct_nontrivial=len(nt),
                    rule="cases = corpus + hand list + structured histories + malformed histories (+ exhaustive small scope in thorough); "
                         "non-trivial = distinct case in which the implementation unchoked at least one connection and later choked one",
-                   samples=samples, input_distribution=stats, mismatches=mism,
+                   samples=samples, input_distribution=stats, mismatches=mism, wire_cases=wire_n, wire_steps=wire_steps,
                    exhaustive=(tier == "thorough"))
     rep.assumptions += ["at most 16 connections per entry list and at most 16 choke groups (std::sort is a stable insertion sort there)",
                         "connections are only queued on the download side while the remote has unchoked us (as PeerConnection::read_message does)",
